@@ -97,6 +97,9 @@ class SigmaNull(SigmaType):
     def __init__(self, dummy: Any | None = None):
         pass
 
+    def __repr__(self) -> str:
+        return "SigmaNull()"
+
     def __eq__(self, other: Any) -> bool:
         return isinstance(other, self.__class__)
 
